@@ -237,6 +237,43 @@ impl Buf for Bytes {
     fn copy_to_bytes(&mut self, len: usize) -> Self {
         self.split_to(len)
     }
+
+    // Direct element reads instead of the default "memcpy into a local array" path: same
+    // results and panics, but CBMC keeps constant bytes constant across an indexed load.
+    #[inline]
+    fn get_u8(&mut self) -> u8 {
+        if self.len() < 1 {
+            crate::panic_advance(&crate::TryGetError { requested: 1, available: 0 });
+        }
+        let s = self.as_slice();
+        let r = s[0];
+        self.off += 1;
+        r
+    }
+
+    #[inline]
+    fn get_u16(&mut self) -> u16 {
+        let avail = self.len();
+        if avail < 2 {
+            crate::panic_advance(&crate::TryGetError { requested: 2, available: avail });
+        }
+        let s = self.as_slice();
+        let r = ((s[0] as u16) << 8) | (s[1] as u16);
+        self.off += 2;
+        r
+    }
+
+    #[inline]
+    fn get_u32(&mut self) -> u32 {
+        let avail = self.len();
+        if avail < 4 {
+            crate::panic_advance(&crate::TryGetError { requested: 4, available: avail });
+        }
+        let s = self.as_slice();
+        let r = ((s[0] as u32) << 24) | ((s[1] as u32) << 16) | ((s[2] as u32) << 8) | (s[3] as u32);
+        self.off += 4;
+        r
+    }
 }
 
 impl Deref for Bytes {
